@@ -486,6 +486,16 @@ impl<A: All2All> Votor<A> {
         out
     }
 
+    /// Calls the private [`Votor::set_timeouts`] for the window starting at `slot`.
+    pub fn verif_set_timeouts(&self, slot: Slot) {
+        self.set_timeouts(slot);
+    }
+
+    /// Production values of `[DELTA_TIMEOUT, DELTA_BLOCK, DELTA_FIRST_SLICE]`.
+    pub fn verif_deltas() -> [std::time::Duration; 3] {
+        [DELTA_TIMEOUT, DELTA_BLOCK, DELTA_FIRST_SLICE]
+    }
+
     /// Returns the highest final-cert slot and the per-slot state in slot order.
     pub fn verif_snapshot(&self) -> (Slot, Vec<VerifSlotSnapshot>) {
         let slots = self
